@@ -11,9 +11,18 @@
   theorems of the section "Mutated containers" hold for EVERY history of mutations.
   The model is tied to the C code by harness/h_iter.c ⇄ lean/Driver/Iter.lean on every run of `./check C11`.
 
+  The property has a FORWARD half (`LawfulFwdAs`: foreach, len, get — what `foreach` uses) and a BACKWARD half
+  (`LawfulBwdAs`); `LawfulAs` is both (`C11_lawful_iff_both`).  Every closure theorem is stated per direction, so a view
+  over an iterable that is right in one direction only (a Zip of inputs of unequal length, a Slice whose stride fits one
+  way) is still covered in that direction (`C11_compositions_lawful_fwd` / `_bwd`).
+  Tuple and Range ABSORB a Terminal cursor (`AbsFwdAs` / `AbsBwdAs`: Terminal is answered with Terminal again), and so do
+  Map / Filter / Slice over them; over such an iterable a Slice is right in the larger region `SliceRegionFwdAbs` /
+  `SliceRegionBwdAbs` (the stride need not fit).
+
   Known findings (the C code is wrong, the model mirrors it, the full statements are refuted below):
-    F11 Slice iteration outside a small parameter region, F12 backward walk over a Zip of unequal inputs,
-    F13 a Tuple holding one object twice.
+    F11 Slice iteration outside the parameter region, F12 backward walk and negative `get` over a Zip of unequal inputs,
+    F13 a Tuple holding one object twice; `get` on a Range / Map / Zip (or a Slice / enumerate over them) DURING a walk
+    overwrites the cursor of the walk; one Range / Map / Zip object twice in a Zip shares one cursor.
 -/
 import CelloProofs.Lemmas.IterRun
 import CelloProofs.Lemmas.IterContainers
@@ -21,6 +30,9 @@ import CelloProofs.Lemmas.IterTree
 import CelloProofs.Lemmas.IterRange
 import CelloProofs.Lemmas.IterViews
 import CelloProofs.Lemmas.IterSlice
+import CelloProofs.Lemmas.IterAbs
+import CelloProofs.Lemmas.IterDir
+import CelloProofs.Lemmas.IterGet
 import CelloProofs.Lemmas.IterCompose
 import CelloProofs.Lemmas.IterMutDenote
 
@@ -33,6 +45,16 @@ namespace Cello.Iter
 theorem C11_lawful_is_what_runs {α : Type} (I : Iterable α) (l : List α) (h : LawfulAs I l) (fuel : Nat)
     (hf : l.length < fuel) : I.forward fuel = (l, .term) ∧ I.backward fuel = (l.reverse, .term) :=
   ⟨(h.fwd I.s0).runFuel fuel hf, (h.bwd I.s0).runFuel fuel (by simpa using hf)⟩
+
+/-- the same for one direction: the forward half gives what `foreach` computes, the backward half the backward walk -/
+theorem C11_lawful_dir_is_what_runs {α : Type} (I : Iterable α) (l : List α) (fuel : Nat) (hf : l.length < fuel) :
+    (LawfulFwdAs I l → I.forward fuel = (l, .term)) ∧ (LawfulBwdAs I l → I.backward fuel = (l.reverse, .term)) :=
+  ⟨fun h => (h.fwd I.s0).runFuel fuel hf, fun h => (h.bwd I.s0).runFuel fuel (by simpa using hf)⟩
+
+/-- **Lawful = forward half ∧ backward half** (for one and the same sequence) -/
+theorem C11_lawful_iff_both {α : Type} (I : Iterable α) :
+    (∀ l, LawfulAs I l ↔ LawfulFwdAs I l ∧ LawfulBwdAs I l) ∧ (Lawful I ↔ ∃ l, LawfulFwdAs I l ∧ LawfulBwdAs I l) :=
+  ⟨lawfulAs_iff I, ⟨fun ⟨l, h⟩ => ⟨l, (lawfulAs_iff I l).mp h⟩, fun ⟨l, h⟩ => ⟨l, (lawfulAs_iff I l).mpr h⟩⟩⟩
 
 /-! ## Containers -/
 
@@ -61,6 +83,11 @@ theorem C11_tuple_lawful (ids : List Nat) (hnd : ids.Nodup) :
     LawfulAs (tupleI ids) ids ∧ (tupleI ids).len = some ids.length :=
   ⟨tuple_lawfulAs ids hnd, rfl⟩
 
+/-- **Tuple absorbs a Terminal cursor**: after a walk, Tuple_Iter_Next / _Prev called with Terminal search for it, find
+    nothing and answer Terminal — again and again (this is what makes stepped Slices over a Tuple right) -/
+theorem C11_tuple_absorbs (ids : List Nat) (hnd : ids.Nodup) : AbsFwdAs (tupleI ids) ids ∧ AbsBwdAs (tupleI ids) ids :=
+  tuple_abs ids hnd
+
 /-- full statement for Tuple (every tuple, also with a repeated object) — refuted by `C11_tuple_dup_refuted` -/
 def C11_tuple_statement : Prop := ∀ ids : List Nat, LawfulAs (tupleI ids) ids
 
@@ -79,6 +106,12 @@ theorem C11_range_lawful (start stop step : Int) :
     LawfulAs (rangeI start stop step) (rangeList start stop step) ∧
     (rangeI start stop step).len = some (rangeList start stop step).length :=
   ⟨range_lawfulAs start stop step, by simp [rangeI, rangeList]⟩
+
+/-- **Range absorbs a Terminal cursor**: Range_Iter_Next / _Prev ignore the cursor and the arithmetic stays beyond the end -/
+theorem C11_range_absorbs (start stop step : Int) :
+    AbsFwdAs (rangeI start stop step) (rangeList start stop step) ∧
+    AbsBwdAs (rangeI start stop step) (rangeList start stop step) :=
+  range_abs start stop step
 
 /-- `rangeList` is the definition of the property text: for a positive step exactly the numbers `start + step*j`
     (`j = 0, 1, …`) below `stop`; for a negative step exactly the numbers `stop-1 + step*j` not below `start`;
@@ -134,7 +167,7 @@ theorem C11_rangeGet_defined_iff (a b c k : Int) :
 /-- before commit 81e7452 `Range_Get` of a range with step 0 answered 0 for every index although the range is empty -/
 theorem C11_rangeGet_old_refuted : rangeGetOld 0 5 0 3 = some 0 ∧ rangeLen 0 5 0 = 0 ∧ rangeGet 0 5 0 3 = none := by decide
 
-/-! ## Views: closure, to any nesting depth -/
+/-! ## Views: closure PER DIRECTION, to any nesting depth -/
 
 /-- **Filter**: over a lawful iterable, Filter yields exactly the accepted elements, in both directions (Filter implements
     Last/Prev with the same skipping loop).  `fuel` bounds the model of the C `while(true)`; any fuel above the length
@@ -143,18 +176,34 @@ theorem C11_filter_closed {α : Type} (I : Iterable α) (p : α → Bool) (fuel 
     (h : LawfulAs I l) (hf : l.length < fuel) : LawfulAs (filterI I p fuel) (l.filter p) :=
   filter_lawfulAs I p fuel h hf
 
+/-- **Filter, per direction**: the forward walk of the Filter needs only the forward walk of the underlying iterable, the
+    backward walk only the backward walk; absorption of a Terminal cursor is inherited (Filter has no Len / Get) -/
+theorem C11_filter_closed_dir {α : Type} (I : Iterable α) (p : α → Bool) (fuel : Nat) (l : List α) (hf : l.length < fuel) :
+    (FwdAs I l → FwdAs (filterI I p fuel) (l.filter p)) ∧ (BwdAs I l → BwdAs (filterI I p fuel) (l.filter p)) ∧
+    (AbsFwdAs I l → AbsFwdAs (filterI I p fuel) (l.filter p)) ∧ (AbsBwdAs I l → AbsBwdAs (filterI I p fuel) (l.filter p)) :=
+  ⟨fun h => filter_fwdAs I p fuel h hf, fun h => filter_bwdAs I p fuel h hf, fun h => filter_absFwd I p fuel h hf,
+    fun h => filter_absBwd I p fuel h hf⟩
+
 /-- **Map**: the images in order, in both directions, with the `len` and `get` of the underlying iterable. -/
 theorem C11_map_closed {α β : Type} (I : Iterable α) (f : α → β) (l : List α) (h : LawfulAs I l) :
     LawfulAs (mapI I f) (l.map f) :=
   map_lawfulAs I f h
 
-/-- **Zip**, any arity ≥ 1, inputs of ANY lengths: the forward walk yields the tuples up to the shortest input and then
-    Terminal, `len` is the minimum and `get i` the `i`-th tuple. -/
+/-- **Map, per direction** (and `len` / `get`, and absorption, are inherited) -/
+theorem C11_map_closed_dir {α β : Type} (I : Iterable α) (f : α → β) (l : List α) :
+    (LawfulFwdAs I l → LawfulFwdAs (mapI I f) (l.map f)) ∧ (LawfulBwdAs I l → LawfulBwdAs (mapI I f) (l.map f)) ∧
+    (AbsFwdAs I l → AbsFwdAs (mapI I f) (l.map f)) ∧ (AbsBwdAs I l → AbsBwdAs (mapI I f) (l.map f)) :=
+  ⟨fun h => ⟨map_fwdAs I f h.fwd, map_lenGet I f h.lg⟩, fun h => ⟨map_bwdAs I f h.bwd, map_lenGet I f h.lg⟩,
+    map_absFwd I f, map_absBwd I f⟩
+
+/-- **Zip**, any arity ≥ 1, inputs of ANY lengths, each input needing only its FORWARD half: the forward walk yields the
+    tuples up to the shortest input and then Terminal, `len` is the minimum and `get i` the `i`-th tuple.
+    `zipI Is` gives every input its own cursor state: the inputs are DISTINCT objects (or objects whose cursor is the
+    pointer the caller holds — `C11_zip_same_object_cursor_held`); one Range / Map / Zip object twice in a Zip is
+    `zipSameI`, refuted in `C11_zip_same_object_refuted`. -/
 theorem C11_zip_forward {α : Type} (Is : List (Iterable α)) (ls : List (List α)) (hne : Is ≠ [])
-    (h : All₂ (fun I l => LawfulAs I l) Is ls) :
-    FwdAs (zipI Is) (zipLists ls) ∧ (∀ n, (zipI Is).len = some n → n = (zipLists ls).length) ∧
-    (∀ g, (zipI Is).get = some g → ∀ i (hi : i < (zipLists ls).length), g (Int.ofNat i) = some (zipLists ls)[i]) :=
-  zip_forward Is ls hne h
+    (h : All₂ (fun I l => LawfulFwdAs I l) Is ls) : LawfulFwdAs (zipI Is) (zipLists ls) :=
+  ⟨zip_fwdAs Is ls hne (h.imp fun _ _ x => x.fwd), zip_lenGet Is ls hne (h.imp fun _ _ x => x.lg)⟩
 
 /-- the zipped sequence has the length of the shortest input -/
 theorem C11_zipLists_length {α : Type} (l : List α) (l' : List α) (ls : List (List α)) :
@@ -166,6 +215,12 @@ theorem C11_zip_closed {α : Type} (Is : List (Iterable α)) (ls : List (List α
     (hlen : ∀ l ∈ ls, l.length = n) (h : All₂ (fun I l => LawfulAs I l) Is ls) :
     LawfulAs (zipI Is) (zipLists ls) :=
   zip_lawfulAs Is ls hne n hlen h
+
+/-- **Zip backward**, inputs of EQUAL length, each input needing only its BACKWARD half -/
+theorem C11_zip_backward_equal {α : Type} (Is : List (Iterable α)) (ls : List (List α)) (hne : Is ≠ []) (n : Nat)
+    (hlen : ∀ l ∈ ls, l.length = n) (h : All₂ (fun I l => LawfulBwdAs I l) Is ls) :
+    LawfulBwdAs (zipI Is) (zipLists ls) :=
+  ⟨zip_bwdAs Is ls hne n hlen (h.imp fun _ _ x => x.bwd), zip_lenGet Is ls hne (h.imp fun _ _ x => x.lg)⟩
 
 /-- full statement for the backward walk of Zip (inputs of any lengths) — refuted by `C11_zip_backward_refuted` -/
 def C11_zip_backward_statement : Prop :=
@@ -179,10 +234,18 @@ theorem C11_zip_backward_refuted : ¬ C11_zip_backward_statement := by
     (All₂.cons (array_lawfulAs _) (All₂.cons (array_lawfulAs _) All₂.nil)) (true, (none, none, ()))).runFuel 8 (by decide)
   revert h; decide
 
-/-- **enumerate** = `zip(range(len I), I)`: the pairs `(i, x_i)`, lawful in both directions. -/
-theorem C11_enumerate_closed {α : Type} (I : Iterable α) (inj : Int → α) (l : List α) (h : LawfulAs I l) :
-    LawfulAs (enumI I l.length inj) (zipLists [(List.range l.length).map (fun (j : Nat) => inj (j : Int)), l]) :=
+/-- **enumerate** = `zip(range(len I), I)`: the pairs `(i, x_i)`, lawful in both directions.  (`enumerate_stack` reads
+    `len(I)`: the object exists only for an `I` that implements Len, `_hlen`.) -/
+theorem C11_enumerate_closed {α : Type} (I : Iterable α) (inj : Int → α) (l : List α) (h : LawfulAs I l)
+    (_hlen : I.len = some l.length) :
+    LawfulAs (enumI I l.length inj) (enumSpec inj l) :=
   enum_lawfulAs I inj h
+
+/-- **enumerate, per direction** -/
+theorem C11_enumerate_closed_dir {α : Type} (I : Iterable α) (inj : Int → α) (l : List α) (_hlen : I.len = some l.length) :
+    (LawfulFwdAs I l → LawfulFwdAs (enumI I l.length inj) (enumSpec inj l)) ∧
+    (LawfulBwdAs I l → LawfulBwdAs (enumI I l.length inj) (enumSpec inj l)) :=
+  ⟨fun h => ⟨enum_fwdAs I inj h.fwd, enum_lenGet I inj h.lg⟩, fun h => ⟨enum_bwdAs I inj h.bwd, enum_lenGet I inj h.lg⟩⟩
 
 /-! ## Slice -/
 
@@ -197,26 +260,59 @@ theorem C11_sliceArg_clamps (n : Nat) (a : Int) :
 /-- the comparison before the repair was unsigned: a bound below `-n` became `n` instead of 0 -/
 theorem C11_sliceArg_old_refuted : sliceArgOld 3 (-9) = 3 ∧ sliceArg 3 (-9) = 0 := by decide
 
-/-- **Slice_partial**: over a lawful iterable of `n` items, with the stored (clamped) start `a`, stop `b` and step `c`:
-    `len` and `get` are right for ALL parameters; the forward walk is right in `SliceRegionFwd`, the backward walk in
-    `SliceRegionBwd` (e.g. the whole-sequence slices `slice(I)`, `slice(I,_,_,1)`, `reverse(I)`, and strides that fit
-    exactly).  Outside these regions the C code is wrong (known finding F11): full statement `C11_slice_statement`. -/
-theorem C11_slice_partial {α : Type} (I : Iterable α) (l : List α) (h : LawfulAs I l) (A B : Nat) (c : Int)
-    (hA : A ≤ l.length) (hB : B ≤ l.length) :
-    (SliceRegionFwd l.length A B c → FwdAs (sliceI I l.length A B c) (sliceSpec l A B c)) ∧
-    (SliceRegionBwd l.length A B c → BwdAs (sliceI I l.length A B c) (sliceSpec l A B c)) ∧
-    (∀ n, (sliceI I l.length A B c).len = some n → n = (sliceSpec l A B c).length) ∧
-    (∀ g, (sliceI I l.length A B c).get = some g → ∀ i (hi : i < (sliceSpec l A B c).length),
-      g (Int.ofNat i) = some (sliceSpec l A B c)[i]) :=
-  ⟨slice_fwdAs I h A B c hA hB, slice_bwdAs I h A B c hA hB, (slice_len_get I h A B c hB).1, (slice_len_get I h A B c hB).2⟩
+/-- **Slice_partial**: over an iterable of `n` items that implements Len (`slice_stack` reads it), with the stored
+    (clamped) start `a`, stop `b` and step `c`: `len` and `get` are right for ALL parameters; the forward walk is right in
+    `SliceRegionFwd`, the backward walk in `SliceRegionBwd` (e.g. the whole-sequence slices `slice(I)`, `slice(I,_,_,1)`,
+    `reverse(I)`, and strides that fit exactly) — each needing only the walk of `I` it actually uses (a positive step walks
+    `I` forwards, a negative step backwards).  These regions are what holds WHATEVER `I` does with a Terminal cursor;
+    over an `I` that absorbs Terminal the regions are larger: `C11_slice_absorbing`.  Outside, the C code is wrong
+    (known finding F11): full statement `C11_slice_statement`. -/
+theorem C11_slice_partial {α : Type} (I : Iterable α) (l : List α) (hlg : LenGetAs I l) (_hlen : I.len = some l.length)
+    (A B : Nat) (c : Int) (hA : A ≤ l.length) (hB : B ≤ l.length) :
+    ((c > 0 → FwdAs I l) → (c < 0 → BwdAs I l) → SliceRegionFwd l.length A B c →
+      FwdAs (sliceI I l.length A B c) (sliceSpec l A B c)) ∧
+    ((c > 0 → BwdAs I l) → (c < 0 → FwdAs I l) → SliceRegionBwd l.length A B c →
+      BwdAs (sliceI I l.length A B c) (sliceSpec l A B c)) ∧
+    LenGetAs (sliceI I l.length A B c) (sliceSpec l A B c) :=
+  ⟨fun hf hb => slice_fwdAs I hf hb A B hA hB, fun hb hf => slice_bwdAs I hb hf A B hA hB,
+    ⟨(slice_len_get I hlg A B c hB).1, (slice_len_get I hlg A B c hB).2⟩⟩
 
 /-- in both regions a Slice is lawful -/
 theorem C11_slice_lawful_in_region {α : Type} (I : Iterable α) (l : List α) (h : LawfulAs I l) (A B : Nat) (c : Int)
     (hA : A ≤ l.length) (hB : B ≤ l.length)
     (hf : SliceRegionFwd l.length A B c) (hb : SliceRegionBwd l.length A B c) :
     LawfulAs (sliceI I l.length A B c) (sliceSpec l A B c) :=
-  ⟨slice_fwdAs I h A B c hA hB hf, slice_bwdAs I h A B c hA hB hb, (slice_len_get I h A B c hB).1,
-    (slice_len_get I h A B c hB).2⟩
+  ⟨slice_fwdAs I (fun _ => h.fwd) (fun _ => h.bwd) A B hA hB hf, slice_bwdAs I (fun _ => h.bwd) (fun _ => h.fwd) A B hA hB hb,
+    (slice_len_get I h.lg A B c hB).1, (slice_len_get I h.lg A B c hB).2⟩
+
+/-- **Slice over an iterable that absorbs a Terminal cursor** (Tuple, Range, and Map / Filter / Slice over them): the walk
+    simply visits the positions `sliceVisitFwd` / `sliceVisitBwd` (it runs to the end of the underlying sequence; `stop`
+    resp. `start` is never looked at), so it is right — and the Slice absorbs Terminal in its turn — exactly when these are
+    the positions the definition selects: `SliceRegionFwdAbs` / `SliceRegionBwdAbs`.  No divisibility condition: stepped
+    forward slices over a Tuple or a Range of ANY length are right (`slice(tuple(1..7),_,_,2)`, `slice(range(7),_,_,3)`). -/
+theorem C11_slice_absorbing {α : Type} (I : Iterable α) (l : List α) (A B : Nat) (c : Int)
+    (hA : A ≤ l.length) (hB : B ≤ l.length) :
+    ((c > 0 → AbsFwdAs I l) → (c < 0 → AbsBwdAs I l) → SliceRegionFwdAbs l.length A B c →
+      AbsFwdAs (sliceI I l.length A B c) (sliceSpec l A B c)) ∧
+    ((c > 0 → AbsBwdAs I l) → (c < 0 → AbsFwdAs I l) → SliceRegionBwdAbs l.length A B c →
+      AbsBwdAs (sliceI I l.length A B c) (sliceSpec l A B c)) :=
+  ⟨fun hf hb => slice_absFwd I hf hb A B hA hB, fun hb hf => slice_absBwd I hb hf A B hA hB⟩
+
+/-- the absorbing regions in arithmetic (checked for every length up to 6, every clamped start and stop, every step in
+    [-7, 7]): FORWARD, step > 0: `start = n`, or `start < stop` and `stop` lies beyond the last position `start + k*step`
+    below `n`; step < 0: `stop = 0`, or `start < stop` and the lowest position `stop-1 - k*|step|` ≥ 0 is not below `start`.
+    BACKWARD, step > 0: `stop = 0`, or `start < stop`, `start < step` and `step` divides `stop-1-start`; step < 0: `start = n`,
+    or `start < stop`, `stop > n - |step|` and `|step|` divides `stop-1-start`. -/
+theorem C11_slice_region_abs_arith_small :
+    (List.range 7).all (fun n => (List.range (n + 1)).all (fun a => (List.range (n + 1)).all (fun b =>
+      (stepsUpTo 7).all (fun c =>
+        (decide (SliceRegionFwdAbs n a b c) ==
+          decide ((c > 0 ∧ ((a : Int) = n ∨ (a < b ∧ ((n : Int) - 1 - a) / c = ((b : Int) - 1 - a) / c))) ∨
+                  (c < 0 ∧ ((b : Int) = 0 ∨ (a < b ∧ ((b : Int) - 1) % (-c) ≥ a))) ∨ c = 0)) &&
+        (decide (SliceRegionBwdAbs n a b c) ==
+          decide ((c > 0 ∧ ((b : Int) = 0 ∨ (a < b ∧ (a : Int) < c ∧ ((b : Int) - 1 - a) % c = 0))) ∨
+                  (c < 0 ∧ ((a : Int) = n ∨ (a < b ∧ (b : Int) > n + c ∧ ((b : Int) - 1 - a) % (-c) = 0))) ∨ c = 0)))))) = true := by
+  decide +kernel
 
 /-- `reverse(I)` = `slice(I, _, _, -1)` and the whole-sequence slice are inside both regions for every length -/
 theorem C11_reverse_in_region (n : Nat) :
@@ -250,6 +346,16 @@ theorem C11_slice_refuted : ¬ C11_slice_statement ∧
     10 (by decide)
   revert h; decide
 
+/-- **F11 is there over absorbing iterables too**, only in a smaller region: `slice(tuple(1..6), 0, 2)` still walks over all six
+    (`stop` cuts, `SliceRegionFwdAbs` fails), while `slice(tuple(1..7), _, _, 2)` and `slice(range(7), _, _, 3)` — outside
+    `SliceRegionFwd` — are right -/
+theorem C11_slice_absorbing_examples :
+    (sliceI (tupleI [1, 2, 3, 4, 5, 6]) 6 0 2 1).forward 20 = ([1, 2, 3, 4, 5, 6], .term) ∧ ¬ SliceRegionFwdAbs 6 0 2 1 ∧
+    (sliceI (tupleI [1, 2, 3, 4, 5, 6, 7]) 7 0 7 2).forward 20 = ([1, 3, 5, 7], .term) ∧
+    SliceRegionFwdAbs 7 0 7 2 ∧ ¬ SliceRegionFwd 7 0 7 2 ∧
+    (sliceI (rangeI 0 7 1) 7 0 7 3).forward 20 = ([0, 3, 6], .term) ∧ SliceRegionFwdAbs 7 0 7 3 ∧ ¬ SliceRegionFwd 7 0 7 3 := by
+  decide
+
 /-- the two regions are EXACT when an Array is underneath: for every length up to 5, every clamped start and stop and
     every step in [-6, 6], the model's walk is right if and only if the parameters lie in the region (exhaustive
     evaluation in the kernel; the harness compares the same verdicts with the C code on [-9,9]^3 and lengths 0..8) -/
@@ -258,6 +364,16 @@ theorem C11_slice_region_exact_small :
       (stepsUpTo 6).all (fun c =>
         (sliceFwdOk n a b c == decide (SliceRegionFwd n a b c)) &&
         (sliceBwdOk n a b c == decide (SliceRegionBwd n a b c)))))) = true := by
+  decide +kernel
+
+/-- … and the absorbing regions are EXACT when a Tuple is underneath (lengths up to 4, steps in [-5, 5]; the harness compares
+    the same verdicts with the C code on [-9,9]^3 and lengths 0..8): the model's walk over
+    `slice(tuple(0..n-1), a, b, c)` is right if and only if the parameters lie in `SliceRegionFwdAbs` / `SliceRegionBwdAbs` -/
+theorem C11_slice_region_abs_exact_small :
+    (List.range 5).all (fun n => (List.range (n + 1)).all (fun a => (List.range (n + 1)).all (fun b =>
+      (stepsUpTo 5).all (fun c =>
+        (sliceFwdOkT n a b c == decide (SliceRegionFwdAbs n a b c)) &&
+        (sliceBwdOkT n a b c == decide (SliceRegionBwdAbs n a b c)))))) = true := by
   decide +kernel
 
 /-! ## Mutated containers: lawful after ANY history -/
@@ -388,23 +504,151 @@ theorem C11_tree_mutated_lawful (init : List Int) (ops : List KOp) :
 /-! ## Every composition, to any nesting depth -/
 
 /-- **Compositions.** `denote` is the function the driver runs on an op-file expression (and the harness builds the same
-    object from the real library); `specOf e` is the sequence the definitions select, defined exactly for the expressions
-    outside known-finding territory (Tuples without a repeated object, Slices inside both regions, Zips of inputs of
-    equal length, Filters over fewer than `filterFuel` items; for a container given by a HISTORY of mutations —
-    `(mut list …)`, `(mut array …)`, `(mut table …)`, `(mut tree …)` — it is defined for every history).  For every such
-    expression — containers, mutated containers, Range, and
-    Slice / reverse / Zip / enumerate / Filter / Map nested to ANY depth — the model object is constructed and is lawful
-    for `specOf e`.  Proved by induction over the expression, using the closure theorems above. -/
+    object from the real library); `defOf e` is the sequence the definitions select (defined whenever the object can be
+    constructed), `dirOf e` says which walks of the object are right, and `specOf e = defOf e` exactly for the expressions
+    BOTH of whose walks are outside known-finding territory (Tuples without a repeated object; a Slice over an iterable that
+    absorbs Terminal — Tuple, Range, Map / Filter / Slice over them — inside `SliceRegionFwdAbs/BwdAbs`, over any other
+    inside `SliceRegionFwd/Bwd`; Zips of inputs of equal length; Filters over fewer than `filterFuel` items; for a
+    container given by a HISTORY of mutations it is defined for every history).  For every such expression — containers,
+    mutated containers, Range, and Slice / reverse / Zip / enumerate / Filter / Map nested to ANY depth — the model object is
+    constructed and is lawful for `specOf e`.  Proved by induction over the expression, per direction (`denote_dir`). -/
 theorem C11_compositions_lawful (e : Expr) (l : List Val) (h : specOf e = some l) :
     ∃ I, denote e = .ok I ∧ LawfulAs I l :=
   let ⟨I, hd, hl, _⟩ := denote_lawful e l h
   ⟨I, hd, hl⟩
+
+/-- **Compositions, forward half** — `specFwd e = defOf e` wherever the FORWARD walk is outside known-finding territory,
+    whatever the backward walk does: in particular Filter / Map / Slice / enumerate / Zip over a Zip of inputs of UNEQUAL
+    length, and over a Slice whose stride fits forwards only (`slice(x,_,_,2)` over six items): foreach yields exactly the
+    defined sequence and then Terminal, `len` and `get` agree. -/
+theorem C11_compositions_lawful_fwd (e : Expr) (l : List Val) (h : specFwd e = some l) :
+    ∃ I, denote e = .ok I ∧ LawfulFwdAs I l :=
+  denote_fwd e l h
+
+/-- **Compositions, backward half** -/
+theorem C11_compositions_lawful_bwd (e : Expr) (l : List Val) (h : specBwd e = some l) :
+    ∃ I, denote e = .ok I ∧ LawfulBwdAs I l :=
+  denote_bwd e l h
+
+/-- the three specifications are restrictions of ONE sequence, the defined one; `specOf` is where both walks are right;
+    `len` and `get` are right wherever the object can be constructed at all (also in known-finding territory) -/
+theorem C11_spec_coherent (e : Expr) :
+    (∀ l, specOf e = some l ↔ specFwd e = some l ∧ specBwd e = some l) ∧
+    (∀ l, specFwd e = some l → defOf e = some l) ∧ (∀ l, specBwd e = some l → defOf e = some l) ∧
+    (∀ l, defOf e = some l → ∃ I, denote e = .ok I ∧ LenGetAs I l) := by
+  refine ⟨fun l => ?_, fun l h => ?_, fun l h => ?_, fun l h => ?_⟩
+  · simp only [specOf, specFwd, specBwd]
+    by_cases h1 : (dirOf e).1.ok = true <;> by_cases h2 : (dirOf e).2.ok = true <;> simp [h1, h2]
+  · simp only [specFwd] at h; split at h
+    · exact h
+    · simp at h
+  · simp only [specBwd] at h; split at h
+    · exact h
+    · simp at h
+  · obtain ⟨I, hd, hlg, _⟩ := denote_dir e l h
+    exact ⟨I, hd, hlg⟩
 
 /-- … hence the interpreter the driver runs yields exactly `specOf e` forwards and its reverse backwards -/
 theorem C11_compositions_run (e : Expr) (l : List Val) (h : specOf e = some l) (fuel : Nat) (hf : l.length < fuel) :
     ∃ I, denote e = .ok I ∧ I.forward fuel = (l, .term) ∧ I.backward fuel = (l.reverse, .term) :=
   let ⟨I, hd, hl⟩ := C11_compositions_lawful e l h
   ⟨I, hd, C11_lawful_is_what_runs I l hl fuel hf⟩
+
+/-- … and `specFwd e` forwards where only the forward half holds -/
+theorem C11_compositions_run_fwd (e : Expr) (l : List Val) (h : specFwd e = some l) (fuel : Nat) (hf : l.length < fuel) :
+    ∃ I, denote e = .ok I ∧ I.forward fuel = (l, .term) :=
+  let ⟨I, hd, hl⟩ := C11_compositions_lawful_fwd e l h
+  ⟨I, hd, (C11_lawful_dir_is_what_runs I l fuel hf).1 hl⟩
+
+/-! ## `get` during a walk, `get` at negative indices, one object twice in a Zip -/
+
+/-- **a loop body that calls `get`, hypothesis made explicit**: `forwardWith body` is foreach whose body calls
+    `get(I, k)` after item `i` whenever `body i = some k`.  If NO `get` is called on the iterable during the walk, or the
+    iterable is one whose `get` leaves the cursor alone (`GetPure`: Array, List, Tuple, Table, Tree, Slice / Filter over
+    them — `C11_get_pure_objects`), the walk is the plain walk. -/
+theorem C11_walk_with_get {α : Type} (I : Iterable α) (l : List α) (h : FwdAs I l) (body : Nat → Option Int)
+    (hyp : (∀ i, body i = none) ∨ GetPure I) (fuel : Nat) (hf : l.length < fuel) :
+    I.forwardWith body fuel = (l, .term) := by
+  have e : I.forwardWith body fuel = I.forward fuel := by
+    rcases hyp with hb | hp
+    · exact forwardWith_of_none I body hb fuel
+    · exact forwardWith_of_pure I hp body fuel
+  rw [e]; exact (h I.s0).runFuel fuel hf
+
+/-- the objects whose `get` does not touch a walk: every expression of the op-file language built from containers with
+    Slice and Filter only (`Expr.getPure`) -/
+theorem C11_get_pure_objects (e : Expr) (I : Iterable Val) (hp : e.getPure = true) (hd : denote e = .ok I) : GetPure I :=
+  denote_getPure e I hp hd
+
+/-- full statement (a `get` in the loop body never disturbs the walk) — refuted by `C11_get_disturbs_walk_refuted` -/
+def C11_get_during_walk_statement : Prop :=
+  ∀ (I : Iterable Int) (l : List Int) (body : Nat → Option Int) (fuel : Nat), LawfulAs I l → l.length < fuel →
+    I.forwardWith body fuel = (l, .term)
+
+/-- **`get` on a Range, a Map or a Zip during a walk overwrites the cursor of the walk**: `foreach (i in range(5))` whose
+    body calls `get(r, 0)` at the third item yields 7 items (`len` is 5); the same over `map(array, f)` and `zip(a, b)` of
+    four items yields 6 -/
+theorem C11_get_disturbs_walk_refuted : ¬ C11_get_during_walk_statement ∧
+    (rangeI 0 5 1).forwardWith (fun i => if i = 2 then some 0 else none) 20 = ([0, 1, 2, 1, 2, 3, 4], .term) ∧
+    (mapI (arrayI [10, 20, 30, 40]) (fun x => x + 1)).forwardWith (fun i => if i = 2 then some 0 else none) 20 =
+      ([11, 21, 31, 21, 31, 41], .term) ∧
+    (zipI [arrayI [10, 20, 30, 40], arrayI [1, 2, 3, 4]]).forwardWith (fun i => if i = 2 then some 0 else none) 20 =
+      ([[10, 1], [20, 2], [30, 3], [20, 2], [30, 3], [40, 4]], .term) := by
+  refine ⟨?_, by decide, by decide, by decide⟩
+  intro H
+  have h := H (rangeI 0 5 1) (rangeList 0 5 1) (fun i => if i = 2 then some 0 else none) 20 (range_lawfulAs 0 5 1) (by decide)
+  revert h; decide
+
+/-- **`get` at EVERY index** (`GetFullAs`: negative = from the end, outside `[-len, len)` = IndexOutOfBoundsError) for Array,
+    List, Tuple, Range, and closed under Map, Slice (all clamped parameters) and Zip of inputs of EQUAL length -/
+theorem C11_get_every_index {α : Type} :
+    (∀ l : List α, GetFullAs (arrayI l) l ∧ GetFullAs (listI l) l) ∧ (∀ ids, GetFullAs (tupleI ids) ids) ∧
+    (∀ a b c, GetFullAs (rangeI a b c) (rangeList a b c)) ∧
+    (∀ (I : Iterable α) (f : α → α) l, GetFullAs I l → GetFullAs (mapI I f) (l.map f)) ∧
+    (∀ (I : Iterable α) l (A B : Nat) (c : Int), LenGetAs I l → B ≤ l.length →
+      GetFullAs (sliceI I l.length A B c) (sliceSpec l A B c)) ∧
+    (∀ (Is : List (Iterable α)) ls n, Is ≠ [] → (∀ l ∈ ls, l.length = n) → All₂ (fun I l => GetFullAs I l) Is ls →
+      GetFullAs (zipI Is) (zipLists ls)) :=
+  ⟨fun l => ⟨array_getFull l, list_getFull l⟩, tuple_getFull, range_getFull, fun I f _ h => map_getFull I f h,
+    fun I _ A B c hlg hB => slice_getFull I hlg A B c hB, fun Is ls n hne hlen h => zip_getFull Is ls n hne hlen h⟩
+
+/-- full statement for `get` of a Zip at every index (inputs of any lengths) — refuted by `C11_zip_get_negative_refuted` -/
+def C11_zip_get_statement : Prop :=
+  ∀ (Is : List (Iterable Nat)) (ls : List (List Nat)), Is ≠ [] → All₂ (fun I l => GetFullAs I l) Is ls →
+    GetFullAs (zipI Is) (zipLists ls)
+
+/-- **F12 for `get`**: Zip_Get hands the key to every input, each normalises a negative key against its OWN length:
+    `get(zip([1,2,3],[10,20]), -1)` is `(3,20)`; the last tuple of the zipped sequence is `(2,20)` -/
+theorem C11_zip_get_negative_refuted : ¬ C11_zip_get_statement ∧
+    (zipI [arrayI [1, 2, 3], arrayI [10, 20]]).get.map (fun g => g (-1)) = some (some [3, 20]) ∧
+    getIdx (zipLists [[1, 2, 3], [10, 20]]) (-1) = some [2, 20] := by
+  refine ⟨?_, by decide, by decide⟩
+  intro H
+  have h := H [arrayI [1, 2, 3], arrayI [10, 20]] [[1, 2, 3], [10, 20]] (by simp)
+    (All₂.cons (array_getFull _) (All₂.cons (array_getFull _) All₂.nil)) _ rfl (-1)
+  revert h; decide
+
+/-- **one object several times in a Zip, cursor held by the caller**: when the cursor of a walk over `x` is the pointer the
+    caller holds (`inObject = false`: Array, List, Table, Tree, Tuple, Slice / Filter over them), `zip(x, …, x)` is `k`
+    independent cursors in the `values` tuple — the same as `k` distinct objects — and its forward walk is right -/
+theorem C11_zip_same_object_cursor_held {α : Type} (I : Iterable α) (h : I.inObject = false) (k : Nat) (hk : 0 < k)
+    (l : List α) (hf : FwdAs I l) :
+    zipSameI I k = zipI (List.replicate k I) ∧ FwdAs (zipSameI I k) (zipLists (List.replicate k l)) :=
+  ⟨zipSame_of_cursor_held I h k, zipSame_fwdAs I h k hk hf⟩
+
+/-- full statement (any object `k` times) — refuted by `C11_zip_same_object_refuted` -/
+def C11_zip_same_object_statement : Prop :=
+  ∀ (I : Iterable Int) (l : List Int) (k : Nat), 0 < k → LawfulAs I l → FwdAs (zipSameI I k) (zipLists (List.replicate k l))
+
+/-- **one Range twice in a Zip**: `zip(r, r)` over `r = range(4)` advances the one Int cell twice per step and shows it
+    twice: `(0,0) (2,2)` instead of four pairs -/
+theorem C11_zip_same_object_refuted : ¬ C11_zip_same_object_statement ∧
+    (zipSameI (rangeI 0 4 1) 2).forward 10 = ([[0, 0], [2, 2]], .term) ∧
+    zipLists (List.replicate 2 (rangeList 0 4 1)) = [[0, 0], [1, 1], [2, 2], [3, 3]] := by
+  refine ⟨?_, by decide, by decide⟩
+  intro H
+  have h := ((H (rangeI 0 4 1) (rangeList 0 4 1) 2 (by decide) (range_lawfulAs 0 4 1)) (zipSameI (rangeI 0 4 1) 2).s0).runFuel 10 (by decide)
+  revert h; decide
 
 /-! ## Non-vacuity -/
 
@@ -459,6 +703,34 @@ example : (specOf (.slice (.mlist [1, 2, 3] [.popAt 0, .push 4]) [none, none, so
 
 /-- outside the admissible part `specOf` is undefined: a Slice outside its region, a Zip of unequal inputs -/
 example : specOf (.slice (.array [1, 2, 3, 4, 5, 6]) [some 0, some 2]) = none ∧
-    specOf (.zip [.array [1, 2, 3], .list [10, 20]]) = none ∧ specOf (.tuple [7, 7]) = none := by decide
+    specOf (.zip [.array [1, 2, 3], .list [10, 20]]) = none ∧ specOf (.tuple [7, 7]) = none ∧
+    specFwd (.slice (.tuple [1, 2, 3, 4, 5, 6]) [some 0, some 2]) = none ∧ specFwd (.tuple [7, 7]) = none := by decide
+
+/-- the forward half composes over one-directional results: views over a Zip of UNEQUAL inputs, and over a Slice that is
+    right forwards only (`slice(x,_,_,2)` over six items) — `specOf` undefined, `specFwd` defined -/
+example :
+    (specFwd (.filter (.zip [.array [1, 2, 3], .array [10, 20]]) 2 1)).map (fun l => l.map Val.show) = some ["(1,10)"] ∧
+    specOf (.filter (.zip [.array [1, 2, 3], .array [10, 20]]) 2 1) = none ∧
+    (specFwd (.map (.zip [.array [1, 2, 3], .array [10, 20]]) 1 0)).map (fun l => l.map Val.show) = some ["11", "22"] ∧
+    (specFwd (.enum (.slice (.array [1, 2, 3, 4, 5, 6]) [none, none, some 2]))).map (fun l => l.map Val.show) =
+      some ["(0,1)", "(1,3)", "(2,5)"] ∧
+    specOf (.slice (.array [1, 2, 3, 4, 5, 6]) [none, none, some 2]) = none ∧
+    (specBwd (.slice (.array [1, 2, 3, 4, 5, 6]) [some 1, none, some 2])).map (fun l => l.map Val.show) = some ["2", "4", "6"] := by
+  decide
+
+/-- the true Slice region over Terminal-absorbing iterables: stepped slices over a Tuple / a Range of seven items, also
+    under Map and Filter and a second Slice, are inside `specFwd` (the last two also inside `specOf`) -/
+example :
+    (specFwd (.slice (.tuple [1, 2, 3, 4, 5, 6, 7]) [none, none, some 2])).map (fun l => l.map Val.show) = some ["1", "3", "5", "7"] ∧
+    (specFwd (.slice (.range [some 7]) [none, none, some 3])).map (fun l => l.map Val.show) = some ["0", "3", "6"] ∧
+    (specFwd (.filter (.slice (.map (.range [some 9]) 1 0) [none, none, some 2]) 4 0)).map (fun l => l.map Val.show) = some ["0", "4", "8"] ∧
+    (specOf (.slice (.slice (.tuple [1, 2, 3, 4, 5, 6, 7]) [none, none, some 2]) [none, none, some 3])).map (fun l => l.map Val.show) = some ["1", "7"] ∧
+    (specOf (.slice (.range [some 7]) [none, none, some (-2)])).map (fun l => l.map Val.show) = some ["6", "4", "2", "0"] := by
+  decide
+
+/-- hypotheses of the `get` theorems are met: an Array under a Slice is `GetPure` and its cursor is held by the caller -/
+example : Expr.getPure (.slice (.array [1, 2, 3]) [some 1]) = true ∧ (arrayI [1, 2, 3]).inObject = false ∧
+    (sliceI (arrayI [1, 2, 3]) 3 1 3 1).forwardWith (fun i => if i = 0 then some 0 else none) 10 = ([2, 3], .term) ∧
+    (zipSameI (arrayI [1, 2, 3]) 2).forward 10 = ([[1, 1], [2, 2], [3, 3]], .term) := by decide
 
 end Cello.Iter
